@@ -54,6 +54,9 @@ func reencode(c *mon.Ctx, r *gen.Rand) {
 	}
 	sec := s.Section()
 	in := s.Payload()
+	if r.Chance(5) {
+		rejectedFirst(c, r)
+	}
 	x, err := scte35.NewSCTE35(in)
 	c.Eval(1)
 	w := func(got []byte, d string) wit {
@@ -620,6 +623,16 @@ func (b *built) descOp() {
 			us = append(us, u)
 			ms = append(ms, ref.UPID{Type: t, Data: append([]byte{}, data...)})
 		}
+		if own := d.MID(); m.UPIDType == 0x0d && len(own) >= 2 && len(own) == len(m.MID) && r.Bool() {
+			// the descriptor's own elements, handed back in another order (and possibly fewer of them)
+			us, ms = nil, nil
+			for _, k := range r.Perm(len(own))[:1+r.Intn(len(own))] {
+				us = append(us, own[k])
+				ms = append(ms, ref.UPID{Type: m.MID[k].Type, Data: append([]byte{}, m.MID[k].Data...)})
+			}
+			b.c.Count("handle.own_mid_reordered")
+			b.log(p + "SetMID(own elements reordered)")
+		}
 		b.log(p+"SetMID(%d UPIDs)", len(us))
 		d.SetMID(us)
 		if m.UPIDType == 0x0d {
@@ -744,6 +757,16 @@ func (b *built) descOp() {
 			}
 			cs = append(cs, co)
 			ms = append(ms, ref.SegComp{Tag: t, Off: off & m33})
+		}
+		if own := d.Components(); len(own) >= 2 && len(own) == len(m.Comps) && r.Bool() {
+			// the descriptor's own components, handed back in another order (and possibly fewer of them)
+			cs, ms = nil, nil
+			for _, k := range r.Perm(len(own))[:1+r.Intn(len(own))] {
+				cs = append(cs, own[k])
+				ms = append(ms, m.Comps[k])
+			}
+			b.c.Count("handle.own_components_reordered")
+			b.log(p + "SetComponents(own components reordered)")
 		}
 		b.log(p+"SetComponents(%d components)", len(cs))
 		d.SetComponents(cs)
@@ -1068,6 +1091,33 @@ func large(c *mon.Ctx, r *gen.Rand) {
 	c.Class(fmt.Sprintf("large/len=%d", len(want)/256))
 }
 
+// rejectedFirst decodes a section that is rejected late in the parse (after foreign and segmentation
+// descriptors were read): what the failed call left behind must not show in the next decode / encode.
+func rejectedFirst(c *mon.Ctx, r *gen.Rand) {
+	t := ref.GenSig(r, true)
+	for k := 1 + r.Intn(3); k > 0; k-- {
+		t.Descs = append(t.Descs, ref.SegDesc{Foreign: true, Tag: r.PickByte([]byte{0x00, 0x01, 0x03, 0x80}), Body: append([]byte("CUEI"), r.Bytes(r.Intn(9))...)})
+		t.Descs = append(t.Descs, ref.GenSegDesc(r, false))
+	}
+	switch r.Intn(3) {
+	case 0:
+		bad := ref.GenSegDesc(r, false)
+		bad.BadID = true
+		t.Descs = append(t.Descs, bad)
+	case 1:
+		p := t.Payload()
+		if _, err := scte35.NewSCTE35(p[:len(p)-5-r.Intn(20)]); err != nil {
+			c.Count("reencode.after_rejected_section")
+		}
+		return
+	default:
+		t.Descs = append(t.Descs, ref.SegDesc{Foreign: true, Tag: 0x02, Body: r.Bytes(r.Intn(8))}) // a tag-2 descriptor too short to be one
+	}
+	if _, err := scte35.NewSCTE35(t.Payload()); err != nil {
+		c.Count("reencode.after_rejected_section")
+	}
+}
+
 // ---------------------------------------------------------------- (e) a decoded signal edited through its descriptors
 
 // decodedEdit decodes a canonical section and changes field values through the decoded descriptors,
@@ -1162,6 +1212,95 @@ func decodedEdit(c *mon.Ctx, r *gen.Rand) {
 	c.Class(fmt.Sprintf("decoded-edit/%d-edits/descs=%d", len(edits), len(ds)))
 }
 
+// ownHandles hands a descriptor's own MID elements / components back to it in another order.
+func ownHandles(c *mon.Ctx, r *gen.Rand) {
+	s := ref.Sig{TableID: 0xfc, Tier: 0xfff, Cmd: 6, TSHas: true, TSPTS: r.U33()}
+	x := scte35.CreateSCTE35()
+	cm := scte35.CreateTimeSignalCommand()
+	cm.SetHasPTS(true)
+	cm.SetPTS(gots.PTS(s.TSPTS))
+	x.SetCommandInfo(cm)
+	x.SetAdjustPTS(gots.PTS(s.TSPTS))
+	w := ref.SegDesc{Event: r.Uint32(), ProgSeg: false, NotRestricted: true, UPIDType: 0x0d, Type: 0x10, Num: 1, Exp: 1}
+	d := scte35.CreateSegmentationDescriptor()
+	d.SetEventID(w.Event)
+	d.SetHasProgramSegmentation(false)
+	d.SetIsDeliveryNotRestricted(true)
+	d.SetTypeID(0x10)
+	d.SetSegmentNumber(1)
+	d.SetSegmentsExpected(1)
+	d.SetUPIDType(0x0d)
+	var us []scte35.UPID
+	for k := 2 + r.Intn(4); k > 0; k-- {
+		u := scte35.CreateUPID()
+		t, data := byte(1+r.Intn(12)), r.Bytes(1+r.Intn(10))
+		u.SetUPIDType(scte35.SegUPIDType(t))
+		u.SetUPID(data)
+		us = append(us, u)
+		w.MID = append(w.MID, ref.UPID{Type: t, Data: data})
+	}
+	d.SetMID(us)
+	var cs []scte35.ComponentOffset
+	for k := 2 + r.Intn(4); k > 0; k-- {
+		co := scte35.CreateComponentOffset()
+		t, off := r.Byte(), r.U33()
+		co.SetComponentTag(t)
+		co.SetPTSOffset(gots.PTS(off))
+		cs = append(cs, co)
+		w.Comps = append(w.Comps, ref.SegComp{Tag: t, Off: off})
+	}
+	d.SetComponents(cs)
+	x.SetDescriptors([]scte35.SegmentationDescriptor{d})
+	s.Descs = []ref.SegDesc{w}
+	c.Eval(1)
+	if got, want := x.UpdateData(), s.Section(); !bytes.Equal(got, want) {
+		c.Fail("own-handles:first-encoding", fmt.Sprintf("the first encoding differs from the reference at byte %d", ref.FirstDiff(got, want)), wit{Shape: s35.Shape(&s), Got: mon.Hex(got), Want: mon.Hex(want)})
+		return
+	}
+	hist := ""
+	for round := 0; round < 2; round++ {
+		m := &s.Descs[0]
+		if r.Bool() {
+			own := d.MID()
+			if len(own) != len(m.MID) {
+				return
+			}
+			var nu []scte35.UPID
+			var nm []ref.UPID
+			perm := r.Perm(len(own))[:1+r.Intn(len(own))]
+			for _, k := range perm {
+				nu = append(nu, own[k])
+				nm = append(nm, m.MID[k])
+			}
+			d.SetMID(nu)
+			m.MID = nm
+			hist += fmt.Sprintf("SetMID(own elements in order %v); ", perm)
+			c.Count("handle.own_mid_reordered")
+		} else {
+			own := d.Components()
+			if len(own) != len(m.Comps) {
+				return
+			}
+			var nc []scte35.ComponentOffset
+			var nm []ref.SegComp
+			perm := r.Perm(len(own))[:1+r.Intn(len(own))]
+			for _, k := range perm {
+				nc = append(nc, own[k])
+				nm = append(nm, m.Comps[k])
+			}
+			d.SetComponents(nc)
+			m.Comps = nm
+			hist += fmt.Sprintf("SetComponents(own components in order %v); ", perm)
+			c.Count("handle.own_components_reordered")
+		}
+		if got, want := x.UpdateData(), s.Section(); !bytes.Equal(got, want) {
+			c.Fail("own-handles:bytes", fmt.Sprintf("after %sthe encoding differs from the reference at byte %d", hist, ref.FirstDiff(got, want)), wit{Shape: s35.Shape(&s), Got: mon.Hex(got), Want: mon.Hex(want), Detail: hist})
+			return
+		}
+	}
+	c.Class("own-handles/" + fmt.Sprint(len(s.Descs[0].MID), len(s.Descs[0].Comps)))
+}
+
 func run(c *mon.Ctx) {
 	c.Rule("(a) canonical sections from the reference encoder (incl. foreign descriptors, cw_index, component lists) decoded and re-encoded; (b) the same field values built through Create*/Set* and encoded; (d) random histories of 5..40 setter calls (set, overwrite, clear, out-of-range values, command and descriptor replacement) with a reference encoding of the final logical values at every UpdateData()/String() checkpoint, decoded again and compared getter by getter; (f) sections longer than 1023 bytes. distinct non-trivial = distinct (stream, command shape, descriptor shapes / kinds of setters used) with at least one descriptor or a non-null command")
 	c.Assume("API gaps: cw_index, encryption_algorithm, foreign descriptors and splice_insert component lists cannot be set through the API and are covered by (a) only. Domain restrictions (DESIGN section 3): SetHasSubSegments(true) only on types 0x34/0x36; device restrictions in 0..3; when a command stores a time that it does not encode, pts_adjustment is masked in the byte comparison; delivery sub-flags, durations, components and sub-segment numbers are compared after decoding only where their governing flag makes them present")
@@ -1176,6 +1315,10 @@ func run(c *mon.Ctx) {
 	c.Stream("built", c.N(20000, 10000000), func(i int, r *gen.Rand) { builtFrom(c, r) })
 	c.Stream("histories", c.N(20000, 10000000), func(i int, r *gen.Rand) { history(c, r) })
 	c.Stream("large", c.N(100, 20000), func(i int, r *gen.Rand) { large(c, r) })
+	c.Stream("own-handles", c.N(1500, 600000), func(i int, r *gen.Rand) { ownHandles(c, r) })
 	c.Floor("decoded_edit.cases", 3000)
+	c.Floor("reencode.after_rejected_section", 1000)
+	c.Floor("handle.own_mid_reordered", 500)
+	c.Floor("handle.own_components_reordered", 500)
 	c.Stream("decoded-edit", c.N(8000, 4000000), func(i int, r *gen.Rand) { decodedEdit(c, r) })
 }
